@@ -1074,8 +1074,9 @@ int KSI_AggregationHashChain_calculateShape(const KSI_AggregationHashChain *chn,
 	/* Left pad the value with 1. */
 	tmp = 1;
 
+	/* The padding bit and one bit per link have to fit into the shape. */
 	i = KSI_HashChainLinkList_length(chn->chain);
-	if (i > (sizeof(KSI_uint64_t) << 3) + 1) {
+	if (i > (sizeof(KSI_uint64_t) << 3) - 1) {
 		res = KSI_INVALID_STATE;
 		goto cleanup;
 	}
